@@ -37,7 +37,7 @@ func c13EnvBlocked() c13Blocked {
 	var r c13Blocked
 	sites := map[string]bool{}
 	for _, g := range strings.Split(dump, "\n\n") {
-		if !(strings.Contains(g, "main.init.") || strings.Contains(g, "main.c13Owners") || strings.Contains(g, "main.c13r5") || strings.Contains(g, "main.c13r6") || strings.Contains(g, "main.c13r7") || strings.Contains(g, "main.(*c13r7")) || !(strings.Contains(g, "c13.go") || strings.Contains(g, "c13_r5.go") || strings.Contains(g, "c13_r6.go") || strings.Contains(g, "c13_r7")) || !strings.Contains(g, "github.com/mattn/anko/env.") {
+		if !(strings.Contains(g, "main.init.") || strings.Contains(g, "main.c13Owners") || strings.Contains(g, "main.c13r5") || strings.Contains(g, "main.c13r6") || strings.Contains(g, "main.c13r7") || strings.Contains(g, "main.c13r8") || strings.Contains(g, "main.c13r9") || strings.Contains(g, "main.(*c13r7")) || !(strings.Contains(g, "c13.go") || strings.Contains(g, "c13_r5.go") || strings.Contains(g, "c13_r6.go") || strings.Contains(g, "c13_r7") || strings.Contains(g, "c13_r8") || strings.Contains(g, "c13_r9")) || !strings.Contains(g, "github.com/mattn/anko/env.") {
 			continue
 		}
 		r.workers++
@@ -106,13 +106,13 @@ func init() {
 			}
 			return fw.Plan{
 				Level: "exploration",
-				Rule:  "phase sched: PRNG configurations of 2-3 goroutines x 2-4 operations from {Define, Set, Get, Delete, DeleteGlobal, Copy(+read of the copy), GetValueSymbols, DefineType, Type, GetTypeSymbols, String} on one shared child scope with a read-only parent, unique values per write; the env package of a scratch copy of the repository is rewritten so that every Lock/RLock/Unlock/RUnlock is a scheduling point of a cooperative scheduler (one runnable goroutine, simulated writer-preferring RW lock, deadlock = nothing enabled); every schedule with at most 2 preemptions is enumerated depth-first (up to a cap per configuration; configurations completed under the cap are tagged exhaustive) plus random schedules; each execution's call/return history on the scheduler's logical clock, closed by a read of the final state, is checked by porcupine against a sequential dictionary model. One sched case in eight is a long-history configuration: the scope has already seen 0-300 Define/Delete cycles, and 2-3 goroutines run 32-85 operations each (twice that in the thorough tier), mostly on symbols only that goroutine writes (one it sets and reads back, short-lived ones it defines and deletes, ones it defines for good) plus reads of the others' symbols, a contended symbol, listings and copies; the unpreempted schedules and 36 (120) random schedules with a per-schedule switch probability between 1/2 and 1/64 are run and each history is checked by porcupine in full (the signature names the anomaly by the single-writer symbols). The last 16 (456) sched cases are lookup configurations: the scope has an immutable lookup object that reads the scope itself (al_<name> = value of <name>, AL_<name> = type), and 2-3 goroutines x 2-4 operations from {Addr of plain values / addressable cells / the parent's symbol / through the lookup, Get and Type through the lookup, Define, DefineCell, Set, Delete, DefineType, GetValueSymbols} are enumerated and judged in the same way (Addr of a defined symbol may answer a pointer to its value or an error, of an undefined one only an error). The 24 (600) sched cases behind those are kept-copy configurations: the shared scope starts never used, emptied again after 1-300 Define/Delete cycles, or holding a symbol, and 2-3 goroutines x 2-4 operations from {CopyKeep (Copy or DeepCopy of the shared scope, KEPT by the goroutine), C.Define, C.Set, C.Get, C.Delete, C.Symbols on the goroutine's kept copy (same names as in the shared scope), Define, Set, Get, Delete, Symbols on the shared scope} are enumerated in the same way against a model with one dictionary per kept copy, the final read covering the shared scope and every kept copy (signature nonlinearizable:kept-copies). The last 40 (1200) sched cases are tree configurations: the operations are started in the scopes of a tree root{gr, type tr, m} <- module m{gm, n} <- module n{gn, o} <- module o, c = child of n, cc = child of c (a third of them with the extra bindings n.up = m and root.alias = n, half of them after 0-39 Define/Delete cycles on m, n, c), 2-3 goroutines x 2-4 operations, a third each from {DeleteGlobal, Set, Get, Type, DefineGlobal, DeepCopy started in m/n/o/c/cc for symbols bound one, two or three scopes further out or nowhere}, {GetEnvFromPath of m, m.n, m.n.o, n.o, n, m.n.up.n.o, alias.o ... started in root/m/o/c/cc} and {Define, Delete, String, Copy, GetValueSymbols, DefineType, NewModule on root/m/n/c}; judged are the scheduler's deadlock verdict (signature deadlock:related-scopes:<the operations the blocked goroutines are in>), panics, and the answer of every path, which is fixed because the module bindings are never written; values are not judged there (an operation that walks the chain takes one scope at a time, and the statement orders the operations of one scope). phase race: 8-32 goroutines x hundreds of mixed operations incl. DeepCopy, NewModule, GetEnvFromPath, Addr (also of symbols bound to nil), DefineGlobal, DefineGlobalType, SetExternalLookup on shared scopes and Type/Get/Addr started in a child made for the call under the Go race detector at GOMAXPROCS 2 and 16. phase owners: 4-12 goroutines x 1000-2500 operations on one shared scope under the race detector; every goroutine writes only its own symbols (a counter symbol, seven short-lived symbols it defines and deletes, symbols defined for good), so that each one-at-a-time ordering consistent with its own order fixes what it reads back from them in Get, GetValueSymbols and Copy, what the others may read of its counter (never an older value than before) and what is left at the end." + c13r5Rule + c13r6Rule + c13r7Rule + c13r7LifeRule + c13r7TreeRule + " Non-trivial = an execution with at least two goroutines interleaved; distinct = distinct (initial state, history).",
+				Rule:  "phase sched: PRNG configurations of 2-3 goroutines x 2-4 operations from {Define, Set, Get, Delete, DeleteGlobal, Copy(+read of the copy), GetValueSymbols, DefineType, Type, GetTypeSymbols, String} on one shared child scope with a read-only parent, unique values per write; the env package of a scratch copy of the repository is rewritten so that every Lock/RLock/Unlock/RUnlock is a scheduling point of a cooperative scheduler (one runnable goroutine, simulated writer-preferring RW lock, deadlock = nothing enabled); every schedule with at most 2 preemptions is enumerated depth-first (up to a cap per configuration; configurations completed under the cap are tagged exhaustive) plus random schedules; each execution's call/return history on the scheduler's logical clock, closed by a read of the final state, is checked by porcupine against a sequential dictionary model. One sched case in eight is a long-history configuration: the scope has already seen 0-300 Define/Delete cycles, and 2-3 goroutines run 32-85 operations each (twice that in the thorough tier), mostly on symbols only that goroutine writes (one it sets and reads back, short-lived ones it defines and deletes, ones it defines for good) plus reads of the others' symbols, a contended symbol, listings and copies; the unpreempted schedules and 36 (120) random schedules with a per-schedule switch probability between 1/2 and 1/64 are run and each history is checked by porcupine in full (the signature names the anomaly by the single-writer symbols). The last 16 (456) sched cases are lookup configurations: the scope has an immutable lookup object that reads the scope itself (al_<name> = value of <name>, AL_<name> = type), and 2-3 goroutines x 2-4 operations from {Addr of plain values / addressable cells / the parent's symbol / through the lookup, Get and Type through the lookup, Define, DefineCell, Set, Delete, DefineType, GetValueSymbols} are enumerated and judged in the same way (Addr of a defined symbol may answer a pointer to its value or an error, of an undefined one only an error). The 24 (600) sched cases behind those are kept-copy configurations: the shared scope starts never used, emptied again after 1-300 Define/Delete cycles, or holding a symbol, and 2-3 goroutines x 2-4 operations from {CopyKeep (Copy or DeepCopy of the shared scope, KEPT by the goroutine), C.Define, C.Set, C.Get, C.Delete, C.Symbols on the goroutine's kept copy (same names as in the shared scope), Define, Set, Get, Delete, Symbols on the shared scope} are enumerated in the same way against a model with one dictionary per kept copy, the final read covering the shared scope and every kept copy (signature nonlinearizable:kept-copies). The last 40 (1200) sched cases are tree configurations: the operations are started in the scopes of a tree root{gr, type tr, m} <- module m{gm, n} <- module n{gn, o} <- module o, c = child of n, cc = child of c (a third of them with the extra bindings n.up = m and root.alias = n, half of them after 0-39 Define/Delete cycles on m, n, c), 2-3 goroutines x 2-4 operations, a third each from {DeleteGlobal, Set, Get, Type, DefineGlobal, DeepCopy started in m/n/o/c/cc for symbols bound one, two or three scopes further out or nowhere}, {GetEnvFromPath of m, m.n, m.n.o, n.o, n, m.n.up.n.o, alias.o ... started in root/m/o/c/cc} and {Define, Delete, String, Copy, GetValueSymbols, DefineType, NewModule on root/m/n/c}; judged are the scheduler's deadlock verdict (signature deadlock:related-scopes:<the operations the blocked goroutines are in>), panics, and the answer of every path, which is fixed because the module bindings are never written; values are not judged there (an operation that walks the chain takes one scope at a time, and the statement orders the operations of one scope). phase race: 8-32 goroutines x hundreds of mixed operations incl. DeepCopy, NewModule, GetEnvFromPath, Addr (also of symbols bound to nil), DefineGlobal, DefineGlobalType, SetExternalLookup on shared scopes and Type/Get/Addr started in a child made for the call under the Go race detector at GOMAXPROCS 2 and 16. phase owners: 4-12 goroutines x 1000-2500 operations on one shared scope under the race detector; every goroutine writes only its own symbols (a counter symbol, seven short-lived symbols it defines and deletes, symbols defined for good), so that each one-at-a-time ordering consistent with its own order fixes what it reads back from them in Get, GetValueSymbols and Copy, what the others may read of its counter (never an older value than before) and what is left at the end." + c13r5Rule + c13r6Rule + c13r7Rule + c13r7LifeRule + c13r7TreeRule + c13r8Rule + c13r9Rule + " Non-trivial = an execution with at least two goroutines interleaved; distinct = distinct (initial state, history).",
 				Assumptions: []string{"scheduling points at lock operations and operation boundaries suffice: code between a release and the same goroutine's next acquisition touches shared state only if it is unsynchronised, which the race phase covers",
 					"the rewrite (sync.RWMutex/sync.Mutex -> verifsync types in env/*.go) preserves the code otherwise; a tree whose env package has no such mutex fails the build of this check rather than passing",
 					"SetExternalLookup (immutable lookup objects) and DefineGlobal are called concurrently in the race-detector phases only; the lookup configurations of phase sched install their lookup before the goroutines start",
 					"phases race and owners run on the schedules the Go runtime happens to produce; the single-writer oracle of phase owners judges only results that every ordering consistent with the goroutines' own orders determines",
-					c13r5Assumption, c13r6Assumption, c13r7Assumption, c13r7LifeAssumption, c13r7TreeAssumption},
-				Phases: []fw.Phase{
+					c13r5Assumption, c13r6Assumption, c13r7Assumption, c13r7LifeAssumption, c13r7TreeAssumption, c13r8Assumptions[0], c13r8Assumptions[1], c13r9Assumption},
+				Phases: append([]fw.Phase{
 					{Name: "sched", Cases: nSched + nLookup + nKept + nTree, Chunk: 10, Builder: "c13sched", TimeoutS: 900},
 					{Name: "race", Race: true, Cases: nRace, Chunk: 3, TimeoutS: 900, Jobs: 8},
 					{Name: "owners", Race: true, Cases: nOwn, Chunk: 3, TimeoutS: 900, Jobs: 8},
@@ -121,10 +121,13 @@ func init() {
 					c13r7Phase(tier),
 					c13r7LifePhase(tier),
 					c13r7TreePhase(tier),
-				},
+				}, append(c13r8Phases(tier), c13r9Phases(tier)...)...),
 			}
 		},
 		Run: func(c *wk.Case) {
+			if c13r8Run(c) || c13r9Run(c) {
+				return
+			}
 			if c.Phase == "owners" {
 				c13Owners(c)
 				return
